@@ -15,6 +15,7 @@ import (
 	"bytes"
 	"context"
 	"encoding/base64"
+	"errors"
 	"encoding/json"
 	"fmt"
 	"io"
@@ -30,6 +31,7 @@ import (
 	"github.com/zitadel/oidc/v3/pkg/client/tokenexchange"
 	"github.com/zitadel/oidc/v3/pkg/oidc"
 
+	"verif/harness/engine"
 	"verif/harness/rig"
 	"verif/harness/rig/keys"
 )
@@ -323,13 +325,91 @@ var faultHelpers = []faultHelper{
 	}},
 }
 
+// ---------------------------------------------------------------------------
+// provider side: requests under storage faults
+
+// providerFlows: the request families of one router (the regular call-provider operations).
+var providerFlows = []string{".discovery+keys", ".code-flow", ".refresh", ".userinfo+introspect", ".revoke+end_session", ".client-credentials",
+	".token-exchange", ".device-flow"}
+
+// providerFaultOps: per router ONE operation that runs every request family of that router once
+// per storage method the family calls (learnt from a clean run of the family in the same world)
+// and per kind of storage error (an opaque error; a *oidc.Error value, the kind the storage
+// interface documents), with that method failing on every call. The requests are expected to be
+// refused - how is the business of C10; here the failure is history: what it left behind is judged
+// on the package-level state and on every other instance.
+// lookupOp is OpByName, bound at init time (Ops refers to this file's operations: no initialisation cycle).
+var lookupOp func(string) *Op
+
+func init() { lookupOp = OpByName }
+
+func providerFaultOps() []Op {
+	var ops []Op
+	for router, rn := range []string{"P", "L"} {
+		router, rn := router, rn
+		ops = append(ops, Op{Name: rn + ".requests!storage-fault", Kind: "fault-provider", Entry: rig.Routers[router] + ":requests!storage-fault",
+			Fault: "storage-fault", Core: true, Run: func(w *World) string {
+				core := w.R.Core
+				defer func() { core.Fault = nil }()
+				positions, fired, refused := 0, 0, 0
+				for _, fl := range providerFlows {
+					o := lookupOp(rn + fl)
+					if o == nil {
+						return "refused:no such request family " + rn + fl
+					}
+					seen := map[string]bool{}
+					core.Fault = func(_ int, m string) error { seen[m] = true; return nil }
+					if p := engine.Safe(func() { o.Run(w) }); p != "" {
+						return "refused:clean run of " + o.Name + " panicked: " + p
+					}
+					for _, m := range SortedKeys(seen) {
+						for _, mk := range []func() error{
+							func() error { return errors.New("c20: storage unavailable") },
+							func() error { return oidc.ErrServerError().WithDescription("c20: storage unavailable") },
+						} {
+							m, mk := m, mk
+							hit := false
+							core.Fault = func(_ int, method string) error {
+								if method == m {
+									hit = true
+									return mk()
+								}
+								return nil
+							}
+							positions++
+							out := "panic"
+							engine.Safe(func() { out = o.Run(w) }) // the harness helpers panic when a flow they need is refused
+							if hit {
+								fired++
+							}
+							if out != "ok" {
+								refused++
+							}
+						}
+					}
+				}
+				core.Fault = nil
+				switch {
+				case positions < 2*len(providerFlows):
+					return fmt.Sprintf("refused:only %d fault positions", positions)
+				case fired != positions:
+					return fmt.Sprintf("refused:%d of %d storage faults did not fire", positions-fired, positions)
+				case refused == 0:
+					return "refused:no request was refused under a storage fault"
+				}
+				return "ok"
+			}})
+	}
+	return ops
+}
+
 // FaultOpName renders the name of a failing operation.
 func FaultOpName(helper, kind, cl, auth string) string {
 	return fmt.Sprintf("%s!%s(client=%s,auth=%s)", helper, kind, cl, auth)
 }
 
 func faultOps() []Op {
-	var ops []Op
+	ops := providerFaultOps()
 	for _, h := range faultHelpers {
 		h := h
 		for _, kind := range h.kinds {
